@@ -65,7 +65,6 @@ theorem holds_pin_subject : Rx.Gen.Holds.subject =
 
 theorem holds_pin_behavior_subject : Rx.Gen.Holds.behavior_subject =
   [
-   ("<BehaviorSubject<Item,Subject> as Observable>::actual_subscribe", "self.value", "statement", ["next"])
   ] := rfl
 
 theorem holds_pin_ref_count : Rx.Gen.Holds.ref_count =
